@@ -102,6 +102,10 @@ def run(pid, tier, args):
             runs.append((fcases, falpha, 3))
             for c in fcases:
                 byid[c["id"]] = c
+            ucases, ualpha = gen_lex.unicode_family()
+            runs.append((ucases, ualpha, 3))
+            for c in ucases:
+                byid[c["id"]] = c
         rawpath = os.path.join(wd, "raw.json")
         gen_lex.write(rawpath, alpha, cases)
         out = vlib.vh(vhbin, ["lex-prep", rawpath, os.path.join(wd, "cases.json")])
